@@ -3,6 +3,7 @@
 package main
 
 import (
+	"regexp"
 	"fmt"
 	gotypes "go/types"
 	"sort"
@@ -326,3 +327,55 @@ func prelookupCase(g *Gen, i int, npk int, prop string) {
 		g.Emit(prop+".placeholders!", list(in2, atom(strings.Join(p2, "; "))), boolS(len(p2) == 0), "lookups-before-load")
 	}
 }
+
+var rePgDeclLine = regexp.MustCompile(`^(type |func |var |const |\t[A-Z][A-Za-z0-9_]*[ (])`)
+
+// pgWithComments puts a numbered doc comment above every declaration, struct field and interface
+// method line of a generated source (types are unchanged; C11 compares what is delivered as comments
+// across load histories).
+func pgWithComments(src string) string {
+	var out []string
+	n := 0
+	for _, line := range strings.Split(src, "\n") {
+		if rePgDeclLine.MatchString(line) {
+			n++
+			indent := ""
+			if strings.HasPrefix(line, "\t") {
+				indent = "\t"
+			}
+			out = append(out, fmt.Sprintf("%s// doc %d +tag%d=v", indent, n, n))
+		}
+		out = append(out, line)
+	}
+	return strings.Join(out, "\n")
+}
+
+// commentDigest: the comment lines delivered for every type, member, method, function, variable and
+// constant of the given packages, in a canonical order.
+func commentDigest(u types.Universe, pkgs map[string]bool) string {
+	var lines []string
+	for path, p := range u {
+		if !pkgs[path] {
+			continue
+		}
+		for k, t := range p.Types {
+			lines = append(lines, fmt.Sprintf("%s.%s: %q", path, k, t.CommentLines))
+			for _, m := range t.Members {
+				lines = append(lines, fmt.Sprintf("%s.%s.%s: %q", path, k, m.Name, m.CommentLines))
+			}
+			for mn, mt := range t.Methods {
+				lines = append(lines, fmt.Sprintf("%s.%s.%s(): %q", path, k, mn, mt.CommentLines))
+			}
+		}
+		for _, tbl := range []map[string]*types.Type{p.Functions, p.Variables, p.Constants} {
+			for k, t := range tbl {
+				lines = append(lines, fmt.Sprintf("%s.%s decl: %q", path, k, t.CommentLines))
+			}
+		}
+	}
+	sort.Strings(lines)
+	return strings.Join(lines, "\n")
+}
+
+// c11lastDigest: the comment digest of the requested packages after the last c11history call
+var c11lastDigest string
